@@ -1,4 +1,5 @@
 import Amqp.Codec
+import Amqp.CodecSpec
 import Driver.Frame
 
 namespace Driver.Codec
@@ -95,6 +96,34 @@ mutual
       | _ => none
 end
 
+mutual
+  /-- choices: `l<form><wide>` | `k<wide><zero>[c;c;…]` | `d[c;c]` -/
+  partial def parseCh : List Char → Option (Amqp.CodecSpec.Ch × List Char)
+    | 'l' :: f :: w :: r =>
+      if f.isDigit then some (.leaf (f.toNat - '0'.toNat) (w == '1'), r) else none
+    | 'k' :: w :: z :: '[' :: r => (parseChs r).map (fun (cs, r') => (.node (w == '1') (z == '1') cs, r'))
+    | 'd' :: '[' :: r => do
+      let (a, r1) ← parseCh r
+      match r1 with
+      | ';' :: r2 => do
+        let (b, r3) ← parseCh r2
+        match r3 with
+        | ']' :: r4 => some (.desc a b, r4)
+        | _ => none
+      | _ => none
+    | _ => none
+  partial def parseChs : List Char → Option (List Amqp.CodecSpec.Ch × List Char)
+    | ']' :: r => some ([], r)
+    | cs => do
+      let (c, r) ← parseCh cs
+      match r with
+      | ';' :: r' => do
+        let (rest, r'') ← parseChs r'
+        some (c :: rest, r'')
+      | ']' :: r' => some ([c], r')
+      | _ => none
+end
+
 def showErr : DErr → String
   | .eof => "eof" | .badCode => "badcode" | .badValue => "badvalue" | .badLen => "badlen"
   | .utf8 => "utf8" | .depth => "depth" | .custom => "custom"
@@ -111,6 +140,12 @@ def step (ws : List String) : Option String :=
     match size .none val with
     | some n => some (toString n)
     | none => some "ERR"
+  | ["spec", c, v] => do
+    let (ch, _) ← parseCh c.toList
+    let (val, _) ← parseValue v.toList
+    match Amqp.CodecSpec.sEnc ch val with
+    | some bs => some (if bs.isEmpty then "-" else hexs bs)
+    | none => some "NONE"
   | ["dec", h] => do
     let bs ← Driver.Frame.unhex h
     match decode bs with
